@@ -133,7 +133,7 @@ where
         let mut local = Agg::default();
         // adaptive bound: the default execution tells how many choice points the tree has; take the largest
         // deviation bound <= the planned one whose full enumeration fits the execution budget (so that no cap is hit)
-        let budget: f64 = ctx.tier.pick(700.0, 40000.0);
+        let budget: f64 = ctx.tier.pick(700.0, 6000.0);
         let n_points = {
             let mut chain = chain_with_eps::<T, B>(target.clone(), &b.start, b.eps);
             let (_, rec) = record_with(Script { prefix: vec![], momenta: moms.clone(), f32_scalar: f32b, inject: true, keep: None, max_leaves: 1 << 14 }, || chain.step());
@@ -151,7 +151,7 @@ where
             }
             bound -= 1;
         }
-        let res = explore(bound, ctx.tier.pick(4000, 200000), |prefix| {
+        let res = explore(bound, ctx.tier.pick(4000, 30000), |prefix| {
             let mut chain = chain_with_eps::<T, B>(target.clone(), &b.start, b.eps);
             let (r, rec) = record_with(Script { prefix: prefix.to_vec(), momenta: moms.clone(), f32_scalar: f32b, inject: true, keep: None, max_leaves: 1 << 14 }, || chain.step());
             let case = json!({"backend": name, "target": tname, "start": b.start, "eps": b.eps, "script": prefix});
